@@ -418,3 +418,75 @@ Proof.
     rewrite dict_mem_set_other; [exact M|exact N1]. }
   rewrite M1. apply last_cap_set_new; [|reflexivity]. rewrite <- ctype_keys_agree. exact M1.
 Qed.
+
+(* ---- end to end: a successful request through a connection of a reachable state ---- *)
+
+(* success through a chain with an authenticating adapter implies that the caller did not pass the key himself *)
+Lemma one_auth_pre ads1 a ads2 ak sk v path d0 p d :
+  auth_value a = Some (ak, sk, v) -> Forall (fun x => is_auth x = false) ads1 ->
+  adapters_pre (ads1 ++ a :: ads2) (path, d0) = Ok (p, d) -> dict_mem auth_key d0 = false.
+Proof.
+  intros Ea F1 H. rewrite adapters_pre_app in H.
+  destruct (adapters_pre ads1 (path, d0)) as [[p1 d1]|e] eqn:E1; cbn [bind] in H; [|discriminate].
+  destruct (adapters_pre_noauth _ _ _ _ _ F1 E1) as [M1 _]. rewrite <- M1.
+  cbn [adapters_pre] in H.
+  destruct (adapter_pre a (p1, d1)) as [[p2 d2]|e] eqn:E2; cbn [bind] in H; [|discriminate].
+  apply adapter_pre_cases in E2.
+  destruct a; cbn [auth_value] in Ea; try discriminate; destruct E2 as [_ (ak' & sk' & v' & _ & Md & _)]; exact Md.
+Qed.
+
+Lemma request_inv st i c q ra cap : wf_state st ->
+  nth_error (conns st) i = Some c -> resolve st q = Ok ra ->
+  snd (step st (ORequest i q)) = Ok (OReq cap) ->
+  exists d0 p d params data,
+    init_dict (heap_of st) (a_headers ra) = Ok d0 /\ adapters_pre (flat_own c) (a_path ra, d0) = Ok (p, d) /\
+    read_params (heap_of st) (a_params ra) = Ok params /\ read_body (heap_of st) (a_data ra) = Ok data /\
+    cap = snd (assemble (fst (conn_root c)) (snd (conn_root c)) (flat_own c) p (a_meth ra) params data d).
+Proof.
+  intros W Ec Er H. rewrite (request_obs _ _ _ _ _ W Ec Er) in H.
+  destruct (spec_of (heap_of st) (fst (conn_root c)) (snd (conn_root c)) (flat_own c) ra) as [cap'|e] eqn:E;
+    cbn [omap] in H; [|discriminate].
+  injection H as <-. apply spec_of_inv. exact E.
+Qed.
+
+Lemma request_one_auth_l st i c q ra cap ads1 a ads2 ak sk v : wf_state st ->
+  nth_error (conns st) i = Some c -> resolve st q = Ok ra ->
+  flat_own c = ads1 ++ a :: ads2 -> auth_value a = Some (ak, sk, v) ->
+  Forall (fun x => is_auth x = false) ads1 -> Forall (fun x => is_auth x = false) ads2 ->
+  snd (step st (ORequest i q)) = Ok (OReq cap) ->
+  dict_get auth_key (q_headers cap) = Some v /\ NoDup (map fst (q_headers cap)).
+Proof.
+  intros W Ec Er Ef Ea F1 F2 H.
+  destruct (request_inv _ _ _ _ _ _ W Ec Er H) as (d0 & p & d & params & data & _ & Hp & _ & _ & ->).
+  rewrite Ef in Hp |- *.
+  exact (one_auth_l ads1 a ads2 ak sk v _ _ (a_path ra) _ _ _ d0 p d Ea F1 F2
+           (one_auth_pre _ _ _ _ _ _ _ _ _ _ Ea F1 Hp) Hp).
+Qed.
+
+Lemma request_shape_l st i c q ra cap : wf_state st ->
+  nth_error (conns st) i = Some c -> resolve st q = Ok ra ->
+  snd (step st (ORequest i q)) = Ok (OReq cap) ->
+  exists params data,
+    read_params (heap_of st) (a_params ra) = Ok params /\ read_body (heap_of st) (a_data ra) = Ok data /\
+    let p := fold_left (fun s pre => join_prefix pre s) (prefixes (flat_own c)) (a_path ra) in
+    let addr := fst (conn_root c) in
+    q_url cap = addr ++ (if negb (ends_with slash addr) && negb (starts_with slash (p ++ query params)) then [slash] else [])
+                     ++ p ++ query params /\
+    q_data cap = match data with
+                 | None => None
+                 | Some (BBytes b) => Some b
+                 | Some (BStr s) => Some (utf8 s)
+                 | Some (BJson js _) => Some (utf8 js)
+                 end /\
+    q_method cap = match a_meth ra with
+                   | Some m => if nonempty m then upper m else default_method data
+                   | None => default_method data
+                   end /\
+    q_resp cap = rev (tags (flat_own c)).
+Proof.
+  intros W Ec Er H.
+  destruct (request_inv _ _ _ _ _ _ W Ec Er H) as (d0 & p & d & params & data & _ & Hp & Hpa & Hb & ->).
+  exists params, data. split; [exact Hpa|]. split; [exact Hb|]. cbn zeta.
+  rewrite <- (adapters_pre_path _ _ _ _ _ Hp).
+  split; [apply assemble_url|]. split; [apply assemble_body|]. split; [apply assemble_method|apply assemble_resp].
+Qed.
